@@ -140,6 +140,11 @@ impl<K: OneRttKey> KeySet<K> {
             }
         }
 
+        // A packet of the previous phase that is accepted while the retained old keys are
+        // still available (key update in progress) is a delayed packet and must not be
+        // mistaken for a new key update initiated by the peer.
+        let update_in_progress = self.key_update_in_progress();
+
         let key = &mut self.crypto[phase_to_use.into()];
 
         let result = packet.decrypt(key.key_mut());
@@ -148,7 +153,7 @@ impl<K: OneRttKey> KeySet<K> {
 
         match result {
             Ok(packet) => {
-                let generation = if packet_phase != self.key_phase() {
+                let generation = if packet_phase != self.key_phase() && !update_in_progress {
                     //= https://www.rfc-editor.org/rfc/rfc9001#section-6.2
                     //# Sending keys MUST be updated before sending an
                     //# acknowledgement for the packet that was received with updated keys.
